@@ -103,7 +103,7 @@ func refRootsPath(p *qPath, top bool, out map[string]bool, wellFormed *bool) {
 	for _, pt := range p.parts {
 		switch pt.kind {
 		case 'f':
-			refRootsGroup(pt.group, out, wellFormed)
+			refRootsGroup(pt.group, out, wellFormed, false)
 		case 'c':
 			for _, a := range pt.args {
 				if a.path != nil {
@@ -111,18 +111,20 @@ func refRootsPath(p *qPath, top bool, out map[string]bool, wellFormed *bool) {
 					refRootsPath(a.path, false, out, wellFormed)
 				}
 				if a.group != nil {
-					refRootsGroup(a.group, out, wellFormed)
+					refRootsGroup(a.group, out, wellFormed, false)
 				}
 			}
 		}
 	}
 }
-func refRootsGroup(g *qGroup, out map[string]bool, wellFormed *bool) {
+
+// docRel: the group is the whole query or nested in groups that are - an `@` operand in it reads the document (as `$` does)
+func refRootsGroup(g *qGroup, out map[string]bool, wellFormed *bool, docRel bool) {
 	for _, o := range g.ops {
 		if o.path != nil {
-			refRootsPath(o.path, false, out, wellFormed)
+			refRootsPath(o.path, docRel && o.path.root == '@', out, wellFormed)
 		} else {
-			refRootsGroup(o.group, out, wellFormed)
+			refRootsGroup(o.group, out, wellFormed, docRel)
 		}
 	}
 }
@@ -212,6 +214,26 @@ func c20Group(r *rng, root byte, depth int, n int, allowDollarArg bool) *qGroup 
 			g.ops = append(g.ops, qOp{path: c20BoolPath(r, depth)})
 		}
 	}
+	return g
+}
+
+// c20TopGroup: a group that is the whole query; one operand in four (also in the groups nested in it) is written with `@`,
+// which directly in such a group is the document
+func c20TopGroup(r *rng, depth int, n int) *qGroup {
+	g := c20Group(r, '$', depth, n, false)
+	var flip func(g *qGroup)
+	flip = func(g *qGroup) {
+		for i := range g.ops {
+			if g.ops[i].path != nil {
+				if r.Intn(4) == 0 {
+					g.ops[i].path.root = '@'
+				}
+			} else {
+				flip(g.ops[i].group)
+			}
+		}
+	}
+	flip(g)
 	return g
 }
 
@@ -448,7 +470,7 @@ func runC20(c *Ctx) {
 			refRootsPath(p, true, refR, &wf)
 			refChainsPath(p, nil, true, &chains, &pathArgsInFilter, false)
 		} else {
-			refRootsGroup(g, refR, &wf)
+			refRootsGroup(g, refR, &wf, true)
 			refChainsGroup(g, nil, &chains, &pathArgsInFilter, false)
 		}
 		// (c) AddressedPaths: cover / exact / no duplicate / independent
@@ -581,7 +603,7 @@ func runC20(c *Ctx) {
 	for i := 0; i < n; i++ {
 		switch r.Intn(6) {
 		case 0:
-			emit(nil, c20Group(r, '$', 1, 1+r.Intn(3), false), "top-group")
+			emit(nil, c20TopGroup(r, 1, 1+r.Intn(3)), "top-group")
 		case 1:
 			emit(c20Path(r, 1, true), nil, "path/args-in-filter")
 		default:
